@@ -141,7 +141,8 @@ def gen_contain(rng, tier):
 def gen_deny(rng, tier):
     files = ["/etc/f1", "/etc/f10", "/etc/f1.conf", "/etc/g1", "/etc/g2", "/etc/x1", "/etc/x2", "/data/i1.conf", "/data/i2.conf",
              "/data/i10.conf", "/etc/with space", "/etc/c1"]
-    cmds = ["/bin/echo alpha", "/bin/echo alphabet", "/bin/echo alpha beta", "/bin/cat /etc/c1", "/usr/bin/printf x"]
+    cmds = ["/bin/echo alpha", "/bin/echo alphabet", "/bin/echo alpha beta", "/bin/cat /etc/c1", "/usr/bin/printf x",
+            "/bin/echo 'quoted arg' tail", "/bin/sh -c 'echo hi there'", "/bin/echo \"dq arg\" x", "/bin/echo a\\ b"]
     items = ["i1", "i2", "i10"]
     specs = [
         {"name": "s_simple", "kind": "simple_file", "path": rng.choice(files)},
@@ -152,7 +153,7 @@ def gen_deny(rng, tier):
         {"name": "s_cmd", "kind": "simple_command", "cmd": rng.choice(cmds)},
         {"name": "s_cmd2", "kind": "simple_command", "cmd": rng.choice(cmds)},
         {"name": "s_args", "kind": "command_with_args", "cmd": "/bin/echo %s", "arg": rng.choice(["alpha", "alphabet", "alpha beta", "gamma"])},
-        {"name": "s_exec", "kind": "foreach_execute", "cmd": "/bin/echo %s", "items": rng.sample(["alpha", "alphabet", "alpha beta", "gamma", "delta"], rng.randint(1, 4))},
+        {"name": "s_exec", "kind": "foreach_execute", "cmd": "/bin/echo %s", "items": rng.sample(["alpha", "alphabet", "alpha beta", "gamma", "delta", "'q item' z"], rng.randint(1, 4))},
         {"name": "s_cexec", "kind": "container_execute", "cmd": rng.choice(["cat /etc/c1", "ls /", "cat %s"]),
          "items": [["img", rng.choice(["podman", "docker"]), "cid%d" % k] for k in range(rng.randint(1, 2))]},
         {"name": "s_ccoll", "kind": "container_collect", "path": rng.choice(["/etc/c1", "/etc/cc"]),
@@ -163,7 +164,7 @@ def gen_deny(rng, tier):
         s["filters"] = rng.sample(["line", "x", "alpha", "-"], rng.randint(1, 2)) if s["filterable"] and rng.random() < 0.8 else []
     # all paths / command lines the specs can touch
     all_files = set(files)
-    all_cmds = set(cmds) | set("/bin/echo %s" % a for a in ["alpha", "alphabet", "alpha beta", "gamma", "delta"])
+    all_cmds = set(cmds) | set("/bin/echo %s" % a for a in ["alpha", "alphabet", "alpha beta", "gamma", "delta", "'q item' z"])
     for s in specs:
         if s["kind"] == "container_execute":
             for it in s["items"]:
@@ -181,6 +182,11 @@ def gen_deny(rng, tier):
     for _ in range(rng.randint(0, 3)):
         c = rng.choice(sorted(all_cmds))
         deny_cmds.append(rng.choice([c[:-1], c + "x", c.split()[0], c.replace(" ", "  ", 1), " " + c]))
+    quoted = [c for c in sorted(all_cmds) if "'" in c or '"' in c or "\\" in c]
+    if quoted and rng.random() < 0.5:
+        q = rng.choice(quoted)
+        # entries spelled as the spec writes the command, reaching into / past the quoted part
+        deny_cmds.append(rng.choice([q, q[:q.rfind("'") + 1] if "'" in q else q, q.rsplit(" ", 1)[0]]))
     symbolic = rng.sample([s["name"] for s in specs], rng.randint(0, 2))
     comps = rng.sample([s["name"] for s in specs], rng.randint(0, 2))
     where = rng.choice(["files", "commands"])
@@ -215,7 +221,17 @@ def gen_write(rng, tier):
         if kind in ("simple_command", "foreach_execute"):
             s["cmd"] = rng.choice(["/bin/echo out%d" % k, "/bin/cat %s"])
         specs.append(s)
-    return {"mode": "write", "root_name": rng.choice(["root", "r"]), "files": files, "specs": specs, "out_depth": rng.randint(0, 3)}
+    links = {}
+    if rng.random() < 0.5:
+        # symlinks inside the root whose (absolute or relative) target is another file inside the root: collected
+        # like any file; what is persisted must be a copy beneath the output directory, not a link back to the host
+        for k in range(rng.randint(1, 3)):
+            ln = rng.choice(["etc", "var/log", "data"]) + "/ln%d.txt" % k
+            links[ln] = [rng.choice(names), rng.choice(["abs", "rel"])]
+            specs.append({"kind": rng.choice(["raw_file", "raw_file", "simple_file", "glob_file"]), "path": "/" + ln, "save_as": rng.choice([None, None, "lnk_%d/" % k])})
+            if specs[-1]["kind"] == "glob_file":
+                specs[-1]["path"] = "/" + os.path.dirname(ln) + "/ln*"
+    return {"mode": "write", "root_name": rng.choice(["root", "r"]), "files": files, "specs": specs, "out_depth": rng.randint(0, 3), "links": links}
 
 
 def nontrivial(spec):
@@ -568,6 +584,22 @@ def run_deny(spec, ctx):
             ctx.count("audit_events_seen", len(events))
             deny_files = set(spec["deny_files"])
             deny_cmds = set(spec["deny_cmds"])
+            # every command line a spec of this case can produce, as written, keyed by the argv it is executed with
+            import shlex
+            written = {}
+            for s_ in spec["specs"]:
+                lines_ = []
+                if s_["kind"] == "simple_command":
+                    lines_ = [s_["cmd"]]
+                elif s_["kind"] == "command_with_args":
+                    lines_ = [s_["cmd"] % s_["arg"]]
+                elif s_["kind"] == "foreach_execute":
+                    lines_ = [(s_["cmd"] if "%s" in s_["cmd"] else s_["cmd"] + " %s") % it for it in s_["items"]]
+                for ln_ in lines_:
+                    try:
+                        written.setdefault(tuple(shlex.split(ln_)), set()).add(ln_)
+                    except ValueError:
+                        pass
             opened, executed = set(), set()
             for ev in events:
                 if ev[0] == "open" and ev[1].startswith(root):
@@ -577,6 +609,8 @@ def run_deny(spec, ctx):
                     argv = strip_timeout(list(ev[1]))
                     line = " ".join(argv)
                     executed.add(line)
+                    for ln_ in written.get(tuple(argv), ()):
+                        executed.add(ln_)
                     for a in argv[1:]:
                         if a.startswith(root):
                             opened.add(a[len(root):])      # a file handed to grep/cat/cp
@@ -646,6 +680,12 @@ def run_write(spec, ctx):
             os.makedirs(os.path.dirname(p), exist_ok=True)
             with open(p, "w") as f:
                 f.write("".join("content %s %d\n" % (rel, k) for k in range(n)))
+        for ln, (target, how) in (spec.get("links") or {}).items():
+            lp = os.path.join(root, ln)
+            os.makedirs(os.path.dirname(lp), exist_ok=True)
+            tp = os.path.join(root, target)
+            os.symlink(tp if how == "abs" else os.path.relpath(tp, os.path.dirname(lp)), lp)
+        source_before = dict((p_, open(p_, "rb").read()) for p_ in (os.path.join(d_, n_) for d_, _, ns in os.walk(root) for n_ in ns) if os.path.isfile(p_))
         out = os.path.join(base, *(["o%d" % k for k in range(spec["out_depth"])] + ["out"]))
         os.makedirs(out)
         specs = []
@@ -677,6 +717,17 @@ def run_write(spec, ctx):
             ctx.count("write_runs")
             new = after - before
             ctx.count("files_persisted", sum(1 for p in new if os.path.isfile(p)))
+            for p_, data in source_before.items():
+                try:
+                    with open(p_, "rb") as fh:
+                        now = fh.read()
+                except OSError:
+                    now = None
+                if now != data:
+                    ctx.violation("collection-modified-a-source-file", {"file": p_.replace(base, "<base>"), "spec_paths": [s2["path"] for s2 in specs]})
+            for p_ in sorted(new):
+                if os.path.islink(p_):
+                    ctx.count("persisted_symlinks_seen")
             has_dotdot = any(".." in s2["path"] for s2 in specs)
             bad = []
             for p in sorted(new):
